@@ -162,6 +162,17 @@ impl<R> NsReader<R> {
         }
     }
 
+    /// Ends the scopes of all elements that were closed by a `read_to_end*()` or
+    /// `read_text()` call
+    pub(super) fn pop_skipped(&mut self) {
+        // the scope of an `Empty` or `End` event returned just before the call
+        self.pop();
+        // The call can be made from inside of a descendant of the skipped element,
+        // in which case it closes several elements. The reader knows how many
+        // elements are still open
+        self.ns_resolver.pop_to(self.reader.state.opened_depth());
+    }
+
     pub(super) fn process_event<'i>(&mut self, event: Result<Event<'i>>) -> Result<Event<'i>> {
         match event {
             Ok(Event::Start(e)) => {
@@ -606,9 +617,7 @@ impl<R: BufRead> NsReader<R> {
         // match literally the start name. See `Config::check_end_names` documentation
         let result = self.reader.read_to_end_into(end, buf)?;
         // `read_to_end_into` consumed the closing tag, so its scope is finished
-        // (as well as the scope of an `Empty` or `End` event returned just before)
-        self.pop();
-        self.ns_resolver.pop();
+        self.pop_skipped();
         Ok(result)
     }
 }
@@ -847,9 +856,7 @@ impl<'i> NsReader<&'i [u8]> {
         // match literally the start name. See `Config::check_end_names` documentation
         let result = self.reader.read_to_end(end)?;
         // `read_to_end` consumed the closing tag, so its scope is finished
-        // (as well as the scope of an `Empty` or `End` event returned just before)
-        self.pop();
-        self.ns_resolver.pop();
+        self.pop_skipped();
         Ok(result)
     }
 
@@ -922,9 +929,7 @@ impl<'i> NsReader<&'i [u8]> {
     pub fn read_text(&mut self, end: QName) -> Result<Cow<'i, str>> {
         let result = self.reader.read_text(end)?;
         // `read_text` consumed the closing tag, so its scope is finished
-        // (as well as the scope of an `Empty` or `End` event returned just before)
-        self.pop();
-        self.ns_resolver.pop();
+        self.pop_skipped();
         Ok(result)
     }
 }
